@@ -52,6 +52,25 @@ EXTRA6 = {
  "C16": SRC + "C16_source_issues_specified_calls - a traced child asks for SIGKILL on the death of the launching thread (PR_SET_PDEATHSIG) and looks whether the launcher is gone already "
         "(getppid, except in a new pid namespace), after its privileges are dropped and before it syncs, stops or attaches, for every option combination of the domains above.",
 }
+# additions of the sixth round of seeded changes
+EXTRA7 = {
+ "C01": "  Where a filter reads instruction-pointer or argument words, no value of them (every constant of the program and its neighbours) may change the verdict.",
+ "C02": "  Directory names that imitate what the kernel appends to /proc link texts (' (deleted)', '(unreachable)'), blanks, control bytes, meta characters, non-ASCII and 255-byte names as working directory, directory descriptor and path component; link targets drawn from the grammar of pathnames (another link followed by '..'); pathnames aimed at links.",
+ "C05": "  Every generated mount table is also started directly through forkexec.Runner under the caller's choice of namespaces (with and without a new pid namespace: a proc mount must then be refused or be the program's own, read-only); existing objects below every mount are modified in place.",
+ "C06": "  Histories of requests inside one container that carry descriptors and do not end in a running program (refused for having no arguments, not found, bad executable descriptor, refused limit, vetoed by the callback, cancelled), each followed by table probes.",
+ "C07": "  Container launches with every option of the request varied (cgroup descriptor good / bad, executable by descriptor, filter, limits, descriptor lists): at the callback the pid is the blocked child of the init, member of the cgroup it was cloned into.",
+ "C10": "  Programs whose descendants left their process group or session (setsid, setpgid, daemon), ending in four ways, each followed by distinguishable calls; several callers on one environment while an Execve is inside its callback: every caller gets the answer of its own call.",
+ "C11": "  Programs with a resource profile placed just under their limits (calibrated per runner): a cancelled run is Time Limit Exceeded, never a limit verdict; elapsed-time bounds are in seconds.",
+ "C12": "  Open batches over every kind of target and Reset as history operations in environments whose Reset fails (read-only bind, nested tmpfs, deep bind), with the init's descriptors counted around every operation.",
+ "C13": "  Readers that are descriptors of in-memory files in all 32 seal states (own, duplicate, read-only re-open; consumed header): position and content of the sealed file are independent of the supplier's; programs that attack their executable after leaving it (exec of another image, then /proc/self/fd).",
+ "C14": "  Batches of 65 to 400 items with failures anywhere (late, sparse, last item, blocks), compared item by item with the planted state, by device/inode and by a token written through each descriptor; the caller's descriptor count around the call.",
+ "C15": "  Thread groups that die at a random moment while their tasks are inside traced path calls (28 call forms, six ways to die, four working directories).",
+ "C16": "  Containers with a generated credential: the controller is killed during file operations (Open, Delete, Symlink, Reset) on objects planted by the previous program (pipes without a peer, link loops, thousands of files).",
+ "C17": "  Launch windows one system call at a time: the launching thread of a first run is held (ptrace) after every system call of its launch and a second run is started at that point; the second run must get exactly the table it gets when nothing else goes on.",
+ "C18": "  Names under /proc that belong to other processes against entries that speak of /proc/self.",
+ "C19": "  Receivers short of room in their descriptor table (RLIMIT_NOFILE just above the highest open descriptor, a chosen number of free slots): a message arrives with all its descriptors or RecvMsg returns an error and leaves nothing behind.",
+ "C20": "  v1 histories over handles with different controller sets and processes placed in part of them by somebody else: after AddProc the process is in the handle's group for every controller of the handle; populations of 3000 live Random siblings under one parent: all distinct, none pre-existing, as many directories as handles.",
+}
 ROOT = os.path.dirname(os.path.dirname(os.path.abspath(__file__)))
 
 CLAIMED = {
@@ -420,7 +439,7 @@ def main():
               "evidence_file": "evidence/%s.json" % i,
               "replay_cmd_template": "./check %s --replay {path}" % i,
               "engine": "coq-gs",
-              "level_claimed": {"category": "proof", "text": c["text"] + EXTRA.get(i, "") + EXTRA6.get(i, ""), "design_ref": c["design"]},
+              "level_claimed": {"category": "proof", "text": c["text"] + EXTRA.get(i, "") + EXTRA7.get(i, "") + EXTRA6.get(i, ""), "design_ref": c["design"]},
               "level_note": c["note"] + ("  Source translation: trusted are tools/goxlate (syntax directed, refuses what it does not know), the IR interpreter's reading of Go statements, and the kernel oracle; the theorems hold on the stated finite option domains (proved by evaluation in Coq, sixteen shards), not for option values outside them (representative numbers stand for descriptor numbers and ids)." if i in EXTRA6 else ""),
               "technique": c["technique"] + (" + translation of the launch code (Go AST -> Gallina IR) re-proved against the specification on every run" if i in EXTRA6 else ""),
             })
